@@ -956,7 +956,7 @@ def gen_cases(ctx):
         c["identity"] = rand_identity(ctx, pool, [o for o in outside if o], nf, short if rng.random() < 0.9 else vals, nmax=5)
         c["name_id"] = dict(text=rng.choice([v for v in short if v] + ["subject-1", "user@example.org"]),
                             format=rng.choice([NAMEID_FORMAT_PERSISTENT, NAMEID_FORMAT_TRANSIENT, NAMEID_FORMAT_EMAILADDRESS, NAMEID_FORMAT_UNSPECIFIED, None]),
-                            spq=rng.choice([None, IDS[c["ids"]][1], "q\"<&>"]), nq=rng.choice([None, None, IDS[c["ids"]][0]]))
+                            spq=rng.choice([None, IDS[c["ids"]][1], "q\"<&>", ""]), nq=rng.choice([None, None, IDS[c["ids"]][0]]))
         c["authn"] = rng.choice([{"class_ref": PASSWORD}, {"class_ref": PASSWORD, "authn_auth": "https://aa.example.org/x?a=1&b=2"},
                                  {"class_ref": "urn:x:<&>\"'é"}, {"class_ref": rng.choice([v for v in short if v]), "authn_auth": rng.choice([v for v in short if v])},
                                  {"class_ref": PASSWORD, "authn_instant": NOW - 77}, {"authn_auth": "only-authority"}, {}, None])
@@ -974,7 +974,7 @@ def gen_cases(ctx):
                 c["identity"] = rand_identity(ctx, pool, [o for o in outside if o], nf2, short, nmax=5)
             if "offset" not in fixed:
                 c["offset"] = rng.choice([0, 1, lt // 2, lt - 1])
-            if c["name_id"]["spq"] not in (None, "q\"<&>"):
+            if c["name_id"]["spq"] not in (None, "q\"<&>", ""):
                 c["name_id"]["spq"] = sp_id
             if c["name_id"]["nq"] is not None:
                 c["name_id"]["nq"] = IDS[c["ids"]][0]
@@ -1164,7 +1164,18 @@ def unit_e2e(ctx, cases=None, unit="e2e_roundtrip_wire_payload"):
         if i < 3:
             ctx.sample(dict(case=show, observed=got if isinstance(got, list) else repr(got), wire=wire))
     ctx.extra["e2e_worlds"] = "%d IdP/SP pairs served %d messages" % (len(world.sps), len(cases))
-    return ctx.correspond(unit, IMPORTS, M_E2E, E2E_TYPE, cc, shard=max(12, len(cc) // 16 + 1))
+    out = ctx.correspond(unit, IMPORTS, M_E2E, E2E_TYPE, cc, shard=max(12, len(cc) // 16 + 1))
+    for d in (out or [])[:6]:
+        # say WHICH observable differs (index 0: what the application reads, 1: signed/encrypted, 2: value-carrying XML)
+        try:
+            import c08_valparse
+            from core import jsonable
+            where = c08_valparse.diff(jsonable(d.impl), c08_valparse.parse(d.model))[:4] if d.model else ["(model output not shown)"]
+        except Exception as e:  # noqa
+            where = ["(could not localise: %s)" % e]
+        ctx.notes.append("e2e case %s differs at %s" % (d.case.get("id"), where))
+        print("  e2e case %s: implementation / model differ at %s" % (d.case.get("id"), "; ".join(where)[:600]))
+    return out
 
 
 def unit_outside(ctx):
